@@ -82,6 +82,10 @@ INTS = {"i8": 8, "i16": 16, "i32": 32, "i64": 64}
 UINTS = {"u8": 8, "u16": 16, "u32": 32, "u64": 64, "enum": 8}
 
 
+_impl_plain = impl
+impl = lib.with_bytearray_variant(_impl_plain, ['parse_as_dlms_data', 'axdr_get_len', 'decode_variable_integer'])
+
+
 def scalar(r):
     k = r.choice(["null", "bool", "i8", "i16", "i32", "i64", "u8", "u16", "u32", "u64", "enum", "oct", "oct", "dt", "date", "time"])
     if k == "null":
